@@ -692,6 +692,11 @@ func (a *NilAnalysis) keySetOf(v ssa.Value, m ssa.Value, mk string, seen map[ssa
 		}
 	case *ssa.ChangeType:
 		return a.keySetOf(x.X, m, mk, seen)
+	case *ssa.MakeSlice:
+		// make([]K, 0, n): no element yet, whatever the capacity
+		if c, ok := constInt(x.Len); ok && c == 0 {
+			return true
+		}
 	}
 	return false
 }
